@@ -62,6 +62,7 @@ class MockCA:
             delay=None, validate=None, tls=None, seed=0, tos=True, orders_field=True,
             cert_san_override=None, wildcard_field=True, port=0, bind="127.0.0.1", host=None,
             pem_style=None,        # how the certificate chain is written: None (LF, final newline) | "crlf" | "nofinal" | "blank_between" | "text_before"
+            same_leaf=False,       # a second order for the same key and names gets the end-entity certificate issued before (only the rest of the chain may differ)
             contact_order="as_sent", # account objects list the contacts as sent | "sorted" | "reversed" (RFC 8555 gives the order no meaning)
             unknown_members=False, # every object carries members RFC 8555 does not define (clients must ignore them)
             detail_style=None,     # (letter, bytes): problem documents carry a long human-readable `detail` made of that letter (any language, any length)
@@ -829,8 +830,15 @@ class MockCA:
         kw = {}
         if self.o["cert_san_override"]:
             kw["san_override"] = self.o["cert_san_override"]
-        leaf = self.vc.must("make_leaf", issuer_cert=self.issuer["cert_pem"], issuer_key=self.issuer["key_pem"], csr=csr,
-                            not_after_s=int(self.o["cert_lifetime_s"]), cn=want_dns[0] if want_dns else "ip", **kw)
+        lk = (info["spki_sha"], tuple(want_dns), tuple(want_ip))
+        if self.o["same_leaf"] and lk in getattr(self, "_leaves", {}):
+            leaf = self._leaves[lk]
+        else:
+            leaf = self.vc.must("make_leaf", issuer_cert=self.issuer["cert_pem"], issuer_key=self.issuer["key_pem"], csr=csr,
+                                not_after_s=int(self.o["cert_lifetime_s"]), cn=want_dns[0] if want_dns else "ip", **kw)
+            if not hasattr(self, "_leaves"):
+                self._leaves = {}
+            self._leaves[lk] = leaf
         cid = self._new_id("X")
         body = leaf["cert_pem"] + "".join(self.served_tail)
         self.certs[cid] = {"pem": body, "order": obj, "spki": leaf["spki_sha"]}
